@@ -121,9 +121,79 @@ def r203(ctx, fx, cg):
             ctx.finding(rid, key, "the debug session does not wait on the language server's shutdown notification", ds.where)
 
 
+BLOCKING = ("Receiver::recv", "JoinHandle::join", "Condvar::wait", "Barrier::wait", "Select::select", "Select::ready", "TcpListener::accept")
+
+
+def r204(ctx, fx, cg):
+    rid = ctx.rule("R20.4", "answering `shutdown` never waits on another thread: nothing reachable from LspContext::invoke_shutdown_handlers calls an unbounded blocking "
+                   "primitive (channel recv without timeout, join, condvar wait, accept) — a session thread that is itself stuck (or waits for the context "
+                   "lock the caller holds) would keep the request unanswered forever")
+    inv = fx.fn("mos::lsp::LspContext::invoke_shutdown_handlers")
+    if inv is None:
+        ctx.fail_closed(rid, "LspContext::invoke_shutdown_handlers not found")
+        return
+    reach = cg.reach([inv.id])
+    n = 0
+    for fid in sorted(reach, key=lambda i: fx.fns[i].path):
+        f = fx.fns[fid]
+        if f.crate != "mos":
+            continue
+        n += 1
+        k0 = 0
+        for bi, t in lib.calls(f):
+            p = lib.callee(t)[0]
+            if p and any(lib.pm(p, b) or lib.norm(p).endswith("::" + b.split("::")[-1]) and b.split("::")[0] in p for b in BLOCKING):
+                k0 += 1
+                key = "%s|%s#%d" % (f.path, lib.norm(p).rsplit("::", 2)[-2] + "::" + lib.norm(p).rsplit("::", 1)[-1], k0)
+                ctx.inst(rid, key)
+                ctx.finding(rid, key, "%s, on the path that answers `shutdown`, blocks in %s with no timeout: if the other side never lets go — e.g. a debug "
+                            "session thread that is deadlocked or paused — `shutdown` is never answered and the process never terminates" % (
+                                f.path.rsplit("::", 1)[-1], lib.norm(p)), "%s:%s" % (f.file, t.get("line")))
+        if k0 == 0:
+            ctx.inst(rid, f.path, nontrivial=False)
+    ctx.inst(rid, "invoke_shutdown_handlers|reach", sample={"functions_on_the_shutdown_path": n})
+    if n < 1:
+        ctx.fail_closed(rid, "the shutdown path is empty")
+
+
+def r205(ctx, fx):
+    from . import locks
+    rid = ctx.rule("R20.5", "no thread of the server asks for a lock it already holds (std's Mutex and RwLock are not re-entrant): in no body is a MutexGuard / "
+                   "RwLockWriteGuard of T acquired through the same owner while a guard of T is definitely still alive — e.g. `if let … = m.adapter().state()? "
+                   "{ m.adapter_mut()… }`, where the read guard of the scrutinee lives to the end of the `if let`")
+    n = 0
+    withg = 0
+    seen = {}
+    for f in sorted(fx.all_fns("mos"), key=lambda f: f.path):
+        if "::tests::" in f.path or "::testing" in f.path or not f.blocks:
+            continue
+        n += 1
+        gl = locks.guard_locals(f)
+        if len(gl) >= 2:
+            withg += 1
+        res = locks.self_deadlocks(f)
+        if not res:
+            ctx.inst(rid, f.path, nontrivial=len(gl) >= 2)
+        for bi, line, held, acquired, T in res:
+            owner = f
+            while owner.kind == "closure" and owner.d.get("parent") in fx.fns:
+                owner = fx.fns[owner.d["parent"]]
+            seen[owner.path] = seen.get(owner.path, 0) + 1
+            key = "%s|%s-while-%s#%d" % (owner.path, acquired, held, seen[owner.path])
+            ctx.inst(rid, key)
+            ctx.finding(rid, key, "%s acquires a %s of `%s` while a %s of the same lock, taken through the same owner, is still alive: the thread blocks on itself "
+                        "for ever (and everyone waiting for it — `shutdown` is never answered)" % (owner.path.rsplit("::", 1)[-1], acquired, T[-60:], held),
+                        "%s:%s" % (f.file, line))
+    ctx.extra["lock_bodies"] = {"bodies": n, "bodies_with_two_or_more_guards": withg}
+    if n < 800 or withg < 40:
+        ctx.fail_closed(rid, "guard census below what was counted by hand (%d bodies, %d with two or more guards)" % (n, withg))
+
+
 def run(ctx):
     fx = ctx.facts
     cg = lib.CallGraph(fx)
+    r204(ctx, fx, cg)
+    r205(ctx, fx)
     r201(ctx, fx, cg)
     r202(ctx, fx, cg)
     r203(ctx, fx, cg)
